@@ -384,6 +384,38 @@ Theorem student_mfx_null_variance_init_def : forall x m, x <> [] ->
 Proof. exact ssd_fixed_is_sqdev. Qed.
 Print Assumptions student_mfx_null_variance_init_def.
 
+(* ================================================================ fff_glm_twolevel EM (two-sample student_mfx, glm_twolevel.pyx) *)
+Theorem glm_twolevel_estep_is_gaussian_posterior : forall s2 yi vyi fi, TINY < s2 -> TINY < vyi ->
+  glm2_z (glm2_w2 (Some s2)) yi vyi fi == e_mean s2 yi vyi fi /\
+  glm2_vz (glm2_w2 (Some s2)) vyi == e_cvar s2 vyi.
+Proof. exact glm2_estep_is_posterior. Qed.
+Print Assumptions glm_twolevel_estep_is_gaussian_posterior.
+
+Theorem glm_twolevel_first_estep_returns_data : forall yi vyi fi, TINY < vyi ->
+  glm2_z (glm2_w2 None) yi vyi fi == yi /\ glm2_vz (glm2_w2 None) vyi == vyi.
+Proof. exact glm2_first_estep. Qed.
+Print Assumptions glm_twolevel_first_estep_returns_data.
+
+(* M step: s2 = (1/n) [ sum (z - Xb)^2 + sum vz ] - squares about 0; centring them would differ *)
+Theorem glm_twolevel_variance_update_is_uncentred : forall r, r <> [] ->
+  ssd_fixed r 0 == qsum (map (fun v => v * v) r).
+Proof. exact glm2_s2_is_uncentred. Qed.
+Print Assumptions glm_twolevel_variance_update_is_uncentred.
+
+Example glm_twolevel_centred_update_would_differ : ~ vec_ssd [1; 2] == ssd_fixed [1; 2] 0.
+Proof. exact glm2_centred_would_differ. Qed.
+
+(* ================================================================ Laplace statistic: the clamp s0 = max(s0, s) *)
+Theorem laplace_log_argument_ge_1 : forall x base, 0 < sad x (lib_median x) / qlen x ->
+  1 <= laplace_ratio x base.
+Proof. exact laplace_ratio_ge_1. Qed.
+Print Assumptions laplace_log_argument_ge_1.
+
+Theorem laplace_sqrt_argument_nonneg : forall (lnq : Q -> Q), (forall a, 1 <= a -> 0 <= lnq a) ->
+  forall x base, 0 < sad x (lib_median x) / qlen x -> 0 <= 2 * qlen x * lnq (laplace_ratio x base).
+Proof. exact laplace_sqrt_arg_nonneg. Qed.
+Print Assumptions laplace_sqrt_argument_nonneg.
+
 (* ================================================================ p-values *)
 Theorem calibrated_p_in_closed_unit_interval : forall draws t, draws <> [] ->
   0 <= p_calibrate draws t <= 1.
